@@ -75,6 +75,8 @@ type bfsTask struct {
 	insEr string
 	infra error
 	done  bool
+	// re-delivery of an earlier batch of the history changed answers (C14)
+	redeliver string
 }
 
 // buildState replays a history on a fresh in-memory database.
@@ -90,6 +92,8 @@ func buildState(ctx context.Context, h history) (db *sql.DB, insErr string, err 
 	}
 	return db, insErr, nil
 }
+
+var redeliveries, redeliveryBatteries int64
 
 func sqliteBFS(c *vk.Ctx) {
 	ctx := context.Background()
@@ -219,6 +223,27 @@ func sqliteBFS(c *vk.Ctx) {
 						e.si = runBattery(ctx, db, fixedSeed, battery)
 						atomic.AddInt64(&batteryRuns, 1)
 					})
+					// C14, idempotence across a history: delivering any batch of the history once more
+					// (a retry after a lost acknowledgement, a peer re-sending) must change no answer
+					for bi, o := range t.hist {
+						if ierr := sqlite.VerifInsertEvents(ctx, db, fixedSeed, o.events()); ierr != nil {
+							if t.insEr == "" {
+								t.redeliver = fmt.Sprintf("delivering batch %d %s again fails: %v", bi, o, ierr)
+							}
+							break
+						}
+						k2, kerr := dumpKey(ctx, db)
+						if kerr != nil || k2 == key {
+							continue
+						}
+						after := runBattery(ctx, db, fixedSeed, battery)
+						if same, tieOnly, diff := sameAnswers(e.si, after, battery); !same && !tieOnly {
+							t.redeliver = fmt.Sprintf("delivering batch %d %s again: %s", bi, o, diff)
+							break
+						}
+						atomic.AddInt64(&redeliveryBatteries, 1)
+					}
+					atomic.AddInt64(&redeliveries, int64(len(t.hist)))
 					db.Close()
 					t.done = true
 				}
@@ -228,6 +253,10 @@ func sqliteBFS(c *vk.Ctx) {
 		for _, t := range tasks {
 			if t.infra != nil {
 				c.Infra("exploration failed at history %s: %v", t.hist, t.infra)
+			}
+			if t.redeliver != "" {
+				c.ViolateProp("C14", "C14/idempotence: delivering an earlier batch of the history again changes answers",
+					fmt.Sprintf("history %s; %s", t.hist, t.redeliver), bfsReplay{Part: "sqlite-bfs", History: t.hist.names()})
 			}
 		}
 		// phase 2: judge every new (state, inserted set) pair, in parallel
@@ -344,6 +373,8 @@ func sqliteBFS(c *vk.Ctx) {
 	c.SetExtra("depth", maxDepthDone)
 	c.SetExtra("new_states_per_depth", statesPerDepth)
 	c.SetExtra("battery_runs_on_impl", batteryRuns)
+	c.SetExtra("redeliveries_of_an_earlier_batch", redeliveries)
+	c.SetExtra("redeliveries_that_changed_tables_but_no_answer", redeliveryBatteries)
 	c.SetExtra("queries_on_impl", batteryRuns*int64(len(battery)))
 	c.SetExtra("judged_state_x_inserted_set_pairs", len(judged))
 	c.SetExtra("distinct_inserted_sets", len(insertedSets))
